@@ -363,7 +363,8 @@ SPEC = {
     "assumptions": [
         "hashed streams are shorter than 2^63 bytes: premise of C03_chunking, C03_feed, C03_hash_one, C03_chunk_independent, C03_token, "
         "C03_marker_order, C03_murmur3_table(_chain/_last_row/_fetch_modes), C03_token_preserialized, C03_token_typed, C03_token_shard, "
-        "C03_prop_model, C03_prop_pk_model; C03_chunking_all / C03_feed_all / C03_token_all drop it (the length enters only modulo 2^64; a "
+        "C03_prop_model, C03_prop_pk_model; C03_chunking_all / C03_feed_all / C03_token_all and (round 4) C03_hash_one_all / C03_chunk_independent_all / "
+        "C03_token_preserialized_all / C03_token_shard_all / C03_prop_model_all / C03_prop_pk_model_all drop it (the length enters only modulo 2^64; a "
         "premise removal inside the model, beyond 2^31-1 bytes the Java function does not exist)",
         "inside the quantifier (key_ok, decided exactly by key_okb): pk indexes distinct, each names an existing "
         "marker bound to a value, at most 65535 bound values; outside it the model still follows the code (panics and "
